@@ -8,7 +8,7 @@ CONSTANTS
   MaxNpts = 5
   Acts = {"CvEval"}
   PtKinds = {"gen"}
-  WtKinds = {"none", "const", "gen"}
+  WtKinds = {"none", "const", "gen", "gen2"}
   ExtraNodes <- Extra0
   NodeSize = 2
   Scenario = "single"
